@@ -41,6 +41,53 @@ type c33Seg struct {
 	Base     int64    `json:"base"`
 	Recs     []c33Rec `json:"recs"`
 	AppearAt int      `json:"appear_at"` // first polling cycle whose listing contains the segment
+	// Run > 0: a LARGE segment written compactly: Run records with the contiguous offsets
+	// Base..Base+Run-1 (Recs is left nil in the case and materialised by the world);
+	// LFSEvery > 0 makes every LFSEvery-th of them an LFS envelope (iceberg only).
+	Run      int `json:"run,omitempty"`
+	LFSEvery int `json:"lfs_every,omitempty"`
+}
+
+// expand materialises the records of a Run segment.
+func (s c33Seg) expand() c33Seg {
+	if s.Run <= 0 {
+		return s
+	}
+	out := s
+	out.Recs = make([]c33Rec, s.Run)
+	for j := range out.Recs {
+		out.Recs[j] = c33Rec{Off: s.Base + int64(j), LFS: s.LFSEvery > 0 && j%s.LFSEvery == s.LFSEvery-1}
+	}
+	return out
+}
+
+func (s c33Seg) size() int {
+	if s.Run > 0 {
+		return s.Run
+	}
+	return len(s.Recs)
+}
+
+func (s c33Seg) hasLFS() bool {
+	if s.Run > 0 {
+		return s.LFSEvery > 0 && s.Run >= s.LFSEvery
+	}
+	for _, r := range s.Recs {
+		if r.LFS {
+			return true
+		}
+	}
+	return false
+}
+
+func (s c33Seg) firstOff() (int64, bool) {
+	if s.Run > 0 {
+		return s.Base, true
+	}
+	if len(s.Recs) > 0 {
+		return s.Recs[0].Off, true
+	}
+	return 0, false
 }
 
 // c33Fault is one transient failure.
@@ -51,6 +98,9 @@ type c33Seg struct {
 //	decode          Decode of segment #Nth (index into Segs) fails in cycle Cycle
 //	lfs             the S3 fetch of the first LFS record of segment #Nth fails in cycle Cycle
 //	sink            Write of a batch that starts in segment #Nth fails in cycle Cycle (nothing written)
+//	sink_call       the Nth (0-based) Write call of polling cycle Cycle fails, whatever it carries (nothing written)
+//	sink_partial    the Nth (0-based) Write call of polling cycle Cycle accepts its first min(Keep, len-1) records
+//	                (they ARE in the sink from then on) and then fails
 //	commit_lost     CommitOffset of an offset of segment #Nth fails in cycle Cycle, nothing persisted
 //	commit_ack_lost same, but the offset IS persisted and only the reply is an error (etcd store: first Put ok, later Put fails)
 //	renew           the Nth RenewLease call of the run (1-based) fails
@@ -58,11 +108,15 @@ type c33Fault struct {
 	Comp  string `json:"comp"`
 	Cycle int    `json:"cycle,omitempty"`
 	Nth   int    `json:"nth"`
+	Keep  int    `json:"keep,omitempty"` // sink_partial only
 }
 
 func (f c33Fault) String() string {
 	if f.Comp == "renew" {
 		return fmt.Sprintf("renew#%d", f.Nth)
+	}
+	if f.Comp == "sink_partial" {
+		return fmt.Sprintf("c%d:%s#%d+%d", f.Cycle, f.Comp, f.Nth, f.Keep)
 	}
 	return fmt.Sprintf("c%d:%s#%d", f.Cycle, f.Comp, f.Nth)
 }
@@ -87,11 +141,12 @@ func (c c33Case) sig() string {
 
 // c33Caps says what the processor under test supports.
 type c33Caps struct {
-	Proc                    string
-	LFS                     bool                                 // processor has an LFS resolve stage
-	PollSecs                []int                                // poll intervals the processor can be configured with
-	EncodeLFS               func(key string, blob []byte) []byte // envelope encoder (module's pkg/lfs)
-	RandQuick, RandThorough int                                  // length of the PRNG case list per tier
+	Proc                              string
+	LFS                               bool                                 // processor has an LFS resolve stage
+	PollSecs                          []int                                // poll intervals the processor can be configured with
+	EncodeLFS                         func(key string, blob []byte) []byte // envelope encoder (module's pkg/lfs)
+	RandQuick, RandThorough           int                                  // length of the PRNG case list per tier
+	RandLargeQuick, RandLargeThorough int                                  // same for the PRNG list of large-segment cases
 }
 
 type c33Reporter interface {
@@ -149,6 +204,8 @@ type c33World struct {
 	c    c33Case
 	caps c33Caps
 	id   string
+	segs []c33Seg         // c.Segs with the records of Run segments materialised
+	ids  map[c33RK]string // unique id of every record (read-only after construction)
 
 	mu        sync.Mutex
 	cycle     int
@@ -164,22 +221,30 @@ type c33World struct {
 	lease     *c33PK          // current lease holder's partition
 	leaseAt   int             // cycle in which it was claimed
 	cycFailed map[int]string  // segments that hit a fault in the current cycle -> component
+	cycSinkOK map[int]int     // current cycle: successful sink writes that started in the segment
+	cycPrefix map[int]bool    // current cycle: a sink write into the segment failed after the sink had accepted earlier records of it in this cycle
 	cycLFS    map[c33RK]bool  // records whose LFS fetch failed in the current cycle
 	loadSeq   []int           // current cycle: segment index the k-th LoadOffset call belongs to (inferred, classification only)
 	reportedA map[c33RK]bool
 	viols     []c33Viol
 
 	nSinkOK, nSinkFail, nCommits, nPersist, nLoads, nDecodes, nFetch, nRenew, nClaims, nForeign int
+	nSinkPartial, nSinkLaterFail, nLargeDecodes, nLargeWrites, nRecsAccepted                    int
 	panicked                                                                                    any
 }
 
 func c33NewWorld(c c33Case, caps c33Caps, id string) *c33World {
 	w := &c33World{c: c, caps: caps, id: id, calls: map[string]int{}, fired: make([]bool, len(c.Faults)),
 		segOf: map[c33RK]int{}, delivered: map[c33RK]int{}, committed: map[c33PK]int64{},
-		cycFailed: map[int]string{}, cycLFS: map[c33RK]bool{}, reportedA: map[c33RK]bool{}}
+		cycFailed: map[int]string{}, cycLFS: map[c33RK]bool{}, reportedA: map[c33RK]bool{},
+		cycSinkOK: map[int]int{}, cycPrefix: map[int]bool{}, ids: map[c33RK]string{}}
+	w.segs = make([]c33Seg, len(c.Segs))
 	for i, s := range c.Segs {
-		for _, r := range s.Recs {
-			w.segOf[c33RK{c33PK{s.Topic, s.Part}, r.Off}] = i
+		w.segs[i] = s.expand()
+		for _, r := range w.segs[i].Recs {
+			rk := c33RK{c33PK{s.Topic, s.Part}, r.Off}
+			w.segOf[rk] = i
+			w.ids[rk] = fmt.Sprintf("c33:%s:%s/%d/%d", id, s.Topic, s.Part, r.Off)
 		}
 	}
 	if c.Pre != nil && c.Store == "persistent" {
@@ -202,7 +267,10 @@ func (w *c33World) logf(format string, a ...any) {
 }
 
 // fire reports whether an armed fault (comp, current cycle, nth) exists and consumes it.
-func (w *c33World) fire(comp string, nth int) bool {
+func (w *c33World) fire(comp string, nth int) bool { return w.fireIdx(comp, nth) >= 0 }
+
+// fireIdx is fire returning the index of the consumed fault, -1 if none.
+func (w *c33World) fireIdx(comp string, nth int) int {
 	for i, f := range w.c.Faults {
 		if w.fired[i] || f.Comp != comp || f.Nth != nth {
 			continue
@@ -215,14 +283,17 @@ func (w *c33World) fire(comp string, nth int) bool {
 		if comp == "renew" {
 			w.lastFault = w.cycle + 1 // fires between two polling cycles
 		}
-		return true
+		return i
 	}
-	return false
+	return -1
 }
 
 func (w *c33World) persistent() bool { return w.c.Store == "persistent" }
 
 func (w *c33World) recID(topic string, part int32, off int64) string {
+	if id, ok := w.ids[c33RK{c33PK{topic, part}, off}]; ok {
+		return id
+	}
 	return fmt.Sprintf("c33:%s:%s/%d/%d", w.id, topic, part, off)
 }
 
@@ -244,13 +315,15 @@ func (w *c33World) List() ([]c33Seg, error) {
 	w.calls = map[string]int{}
 	w.cycFailed = map[int]string{}
 	w.cycLFS = map[c33RK]bool{}
+	w.cycSinkOK = map[int]int{}
+	w.cycPrefix = map[int]bool{}
 	w.loadSeq = nil
 	if w.fire("list", 0) {
 		w.logf("list FAULT")
 		return nil, errors.New("c33: transient list failure")
 	}
 	var out []c33Seg
-	for i, s := range w.c.Segs {
+	for i, s := range w.c.Segs { // the adapters use Topic, Part, Base and Key only
 		if s.AppearAt <= w.cycle {
 			out = append(out, s)
 			if w.lease != nil && s.Topic == w.lease.Topic && s.Part == w.lease.Part {
@@ -393,7 +466,7 @@ func (w *c33World) NoteCommit(topic string, part int32, off int64, err error) {
 // listed segment holds must already have been written successfully.
 func (w *c33World) monitorCheckpoint(pk c33PK, off int64, commitSeg int) {
 	var miss []c33Missing
-	for i, s := range w.c.Segs {
+	for i, s := range w.segs {
 		if s.Topic != pk.Topic || s.Part != pk.Part || s.AppearAt > w.cycle {
 			continue
 		}
@@ -406,6 +479,8 @@ func (w *c33World) monitorCheckpoint(pk c33PK, off int64, commitSeg int) {
 			switch {
 			case i <= commitSeg && w.cycLFS[rk]:
 				cause = "lfs_fetch_failure_drops_record"
+			case i < commitSeg && w.cycPrefix[i]:
+				cause = "segment_tail_skipped_after_partial_write"
 			case i != commitSeg && i < commitSeg && w.cycFailed[i] != "" && w.cycFailed[i] != "commit_lost":
 				cause = "failed_segment_skipped_by_later_commit"
 			}
@@ -436,7 +511,13 @@ func (w *c33World) report(miss []c33Missing, at string, summary func(n int, recs
 	for _, c := range causes {
 		ms := by[c]
 		var offs []string
-		for _, m := range ms {
+		for k, m := range ms {
+			if len(ms) > 24 && k >= 8 && k < len(ms)-4 {
+				if k == 8 {
+					offs = append(offs, fmt.Sprintf("... %d more ...", len(ms)-12))
+				}
+				continue
+			}
 			offs = append(offs, fmt.Sprintf("%s@%d(seg%d)", m.Part, m.Off, m.Seg))
 		}
 		w.viols = append(w.viols, c33Viol{Class: c, Summary: summary(len(ms), strings.Join(offs, " ")), Missing: ms, At: at})
@@ -449,8 +530,8 @@ func (w *c33World) Decode(segKey string) (*c33Seg, error) {
 	w.mu.Lock()
 	defer w.mu.Unlock()
 	w.nDecodes++
-	for i := range w.c.Segs {
-		if w.c.Segs[i].Key != segKey {
+	for i := range w.segs {
+		if w.segs[i].Key != segKey {
 			continue
 		}
 		if w.fire("decode", i) {
@@ -458,7 +539,10 @@ func (w *c33World) Decode(segKey string) (*c33Seg, error) {
 			w.logf("decode seg%d FAULT", i)
 			return nil, errors.New("c33: transient decode failure")
 		}
-		s := w.c.Segs[i]
+		s := w.segs[i]
+		if len(s.Recs) > c33LargeMark {
+			w.nLargeDecodes++
+		}
 		return &s, nil
 	}
 	return nil, fmt.Errorf("c33: unknown segment key %q", segKey)
@@ -491,7 +575,7 @@ func (w *c33World) Fetch(key string) ([]byte, error) {
 		return nil, fmt.Errorf("c33: unknown blob %q", key)
 	}
 	first := int64(-1)
-	for _, r := range w.c.Segs[seg].Recs {
+	for _, r := range w.segs[seg].Recs {
 		if r.LFS {
 			first = r.Off
 			break
@@ -507,26 +591,76 @@ func (w *c33World) Fetch(key string) ([]byte, error) {
 
 // ---- sink
 
+// c33LargeMark: a segment / sink batch with more records than this counts as "large" in the evidence counters.
+const c33LargeMark = 900
+
+// c33OffsStr renders the offsets of a batch; long batches are abbreviated.
+func c33OffsStr(recs []c33Out) string {
+	if len(recs) <= 12 {
+		offs := make([]string, 0, len(recs))
+		for _, r := range recs {
+			offs = append(offs, fmt.Sprint(r.Off))
+		}
+		return strings.Join(offs, " ")
+	}
+	contiguous := true
+	for i := 1; i < len(recs); i++ {
+		if recs[i].Off != recs[i-1].Off+1 {
+			contiguous = false
+			break
+		}
+	}
+	return fmt.Sprintf("%d..%d n=%d contiguous=%v", recs[0].Off, recs[len(recs)-1].Off, len(recs), contiguous)
+}
+
+// SinkWrite is the sink. A call either accepts all its records, or fails having accepted
+// nothing (faults sink, sink_call), or fails having accepted a proper prefix (sink_partial).
+// Only accepted records count as written.
 func (w *c33World) SinkWrite(recs []c33Out) error {
 	w.mu.Lock()
 	defer w.mu.Unlock()
 	if len(recs) == 0 {
 		return nil
 	}
+	call := w.calls["sink"]
+	w.calls["sink"]++
 	seg, known := w.segOf[c33RK{c33PK{recs[0].Topic, recs[0].Part}, recs[0].Off}]
 	if !known {
 		seg = -1
 	}
-	if w.fire("sink", seg) {
-		w.cycFailed[seg] = "sink"
-		w.nSinkFail++
-		w.logf("sink write seg%d FAULT (%d records, nothing written)", seg, len(recs))
-		return errors.New("c33: transient sink failure")
+	if len(recs) > c33LargeMark {
+		w.nLargeWrites++
 	}
-	var offs []string
-	for _, r := range recs {
+	accept := len(recs)
+	fault := ""
+	if w.fire("sink", seg) {
+		fault, accept = "sink", 0
+	} else if w.fire("sink_call", call) {
+		fault, accept = "sink_call", 0
+	} else if i := w.fireIdx("sink_partial", call); i >= 0 {
+		fault, accept = "sink_partial", w.c.Faults[i].Keep
+		if accept > len(recs)-1 {
+			accept = len(recs) - 1
+		}
+		if accept < 0 {
+			accept = 0
+		}
+	}
+	if fault != "" {
+		w.cycFailed[seg] = "sink"
+		if w.cycSinkOK[seg] > 0 || accept > 0 {
+			w.cycPrefix[seg] = true
+		}
+		w.nSinkFail++
+		if accept > 0 {
+			w.nSinkPartial++
+		}
+		if call > 0 {
+			w.nSinkLaterFail++
+		}
+	}
+	for _, r := range recs[:accept] {
 		rk := c33RK{c33PK{r.Topic, r.Part}, r.Off}
-		offs = append(offs, fmt.Sprint(r.Off))
 		if _, ok := w.segOf[rk]; !ok {
 			w.nForeign++
 			continue
@@ -538,9 +672,15 @@ func (w *c33World) SinkWrite(recs []c33Out) error {
 			continue
 		}
 		w.delivered[rk]++
+		w.nRecsAccepted++
 	}
+	if fault != "" {
+		w.logf("sink write call#%d seg%d FAULT %s (%d records [%s], first %d accepted)", call, seg, fault, len(recs), c33OffsStr(recs), accept)
+		return errors.New("c33: transient sink failure")
+	}
+	w.cycSinkOK[seg]++
 	w.nSinkOK++
-	w.logf("sink write seg%d ok %s/%d [%s]", seg, recs[0].Topic, recs[0].Part, strings.Join(offs, " "))
+	w.logf("sink write call#%d seg%d ok %s/%d [%s]", call, seg, recs[0].Topic, recs[0].Part, c33OffsStr(recs))
 	return nil
 }
 
@@ -649,7 +789,7 @@ func (w *c33World) judgeFinal(N int) {
 	pk := *w.lease
 	var miss []c33Missing
 	loadsZero := !w.persistent()
-	for i, s := range w.c.Segs {
+	for i, s := range w.segs {
 		if s.Topic != pk.Topic || s.Part != pk.Part || s.AppearAt > w.cycle-N+1 {
 			continue
 		}
@@ -766,30 +906,53 @@ func c33Universe(c c33Case, cycles int) []c33Fault {
 	resolves := c.LFSMode == "resolve" || c.LFSMode == "hybrid"
 	var u []c33Fault
 	for cy := 1; cy <= cycles; cy++ {
-		u = append(u, c33Fault{"list", cy, 0})
+		u = append(u, c33Fault{Comp: "list", Cycle: cy})
 		for k, i := range leased {
 			if c.Segs[i].AppearAt > cy {
 				continue
 			}
-			u = append(u, c33Fault{"decode", cy, i}, c33Fault{"sink", cy, i})
-			if resolves {
-				for _, r := range c.Segs[i].Recs {
-					if r.LFS {
-						u = append(u, c33Fault{"lfs", cy, i})
-						break
-					}
-				}
+			u = append(u, c33Fault{Comp: "decode", Cycle: cy, Nth: i}, c33Fault{Comp: "sink", Cycle: cy, Nth: i})
+			if resolves && c.Segs[i].hasLFS() {
+				u = append(u, c33Fault{Comp: "lfs", Cycle: cy, Nth: i})
 			}
 			if c.Store == "persistent" {
-				u = append(u, c33Fault{"load", cy, k}, c33Fault{"commit_lost", cy, i}, c33Fault{"commit_ack_lost", cy, i})
+				u = append(u, c33Fault{Comp: "load", Cycle: cy, Nth: k}, c33Fault{Comp: "commit_lost", Cycle: cy, Nth: i}, c33Fault{Comp: "commit_ack_lost", Cycle: cy, Nth: i})
 			}
 		}
 		if c.Store == "persistent" {
-			u = append(u, c33Fault{"claim", cy, 0})
+			u = append(u, c33Fault{Comp: "claim", Cycle: cy})
 		}
 	}
 	if c.Store == "persistent" {
-		u = append(u, c33Fault{"renew", 0, 1}, c33Fault{"renew", 0, 2})
+		u = append(u, c33Fault{Comp: "renew", Nth: 1}, c33Fault{Comp: "renew", Nth: 2})
+	}
+	return u
+}
+
+// c33LeasedSegs: indexes of the segments of the partition the processor leases (that of the first listed segment).
+func c33LeasedSegs(c c33Case) []int {
+	var leased []int
+	for i, s := range c.Segs {
+		if s.Topic == c.Segs[0].Topic && s.Part == c.Segs[0].Part {
+			leased = append(leased, i)
+		}
+	}
+	return leased
+}
+
+// c33UniverseX lists the sink faults that are addressed by the position of the Write call
+// within a polling cycle instead of by segment: call 0..calls-1 of cycles 1..cycles fails with
+// nothing written (sink_call) or after the sink accepted a prefix of `keep` records (sink_partial).
+// Which record batch the k-th call carries is up to the processor.
+func c33UniverseX(cycles, calls int, keeps []int) []c33Fault {
+	var u []c33Fault
+	for cy := 1; cy <= cycles; cy++ {
+		for k := 0; k < calls; k++ {
+			u = append(u, c33Fault{Comp: "sink_call", Cycle: cy, Nth: k})
+			for _, keep := range keeps {
+				u = append(u, c33Fault{Comp: "sink_partial", Cycle: cy, Nth: k, Keep: keep})
+			}
+		}
 	}
 	return u
 }
@@ -930,6 +1093,231 @@ func c33RandCase(rng *rand.Rand, caps c33Caps, thorough bool) c33Case {
 	return c
 }
 
+// ---------------------------------------------------------------- large segments
+
+// c33Runs builds contiguous Run segments of the given sizes for orders/0 starting at base;
+// gapAt > 0 leaves a hole of 100 offsets before segment #gapAt.
+func c33Runs(base int64, gapAt int, sizes ...int) []c33Seg {
+	var out []c33Seg
+	off := base
+	for i, n := range sizes {
+		if gapAt > 0 && i == gapAt {
+			off += 100
+		}
+		out = append(out, c33Seg{Topic: "orders", Part: 0, Base: off, Run: n})
+		off += int64(n)
+	}
+	return out
+}
+
+// c33LargeLayouts: several completed segments of one partition per polling cycle, at least one of
+// them far larger than the handful of records of c33Layouts (sizes around and well above plausible
+// internal batch sizes of a processor or sink: 999/1000/1001, 2000/2001, 4096/4097, 5000).
+func c33LargeLayouts() []c33Layout {
+	ls := []c33Layout{
+		{"L-1001+3", c33Runs(0, 0, 1001, 3)},
+		{"L-2500+10+10", c33Runs(0, 0, 2500, 10, 10)},
+		{"L-999+1000+1001", c33Runs(0, 0, 999, 1000, 1001)},
+		{"L-2001+2000", c33Runs(0, 0, 2001, 2000)},
+		{"L-4096+1+4097", c33Runs(0, 0, 4096, 1, 4097)},
+		{"L-5000+2", c33Runs(0, 0, 5000, 2)},
+		{"L-3+1500+2", c33Runs(0, 0, 3, 1500, 2)},
+		{"L-from7-1000+1001+1", c33Runs(7, 0, 1000, 1001, 1)},
+		{"L-2000-gap-1200+1", c33Runs(0, 1, 2000, 1200, 1)},
+		{"L-1+1+3000+1", c33Runs(0, 0, 1, 1, 3000, 1)},
+	}
+	for i := range ls {
+		c33SortSegs(ls[i].Segs)
+	}
+	return ls
+}
+
+type c33LargeVariant struct {
+	Case c33Case
+	Kind string // "persistent" | "default" | "pre" | "lfs"
+}
+
+func c33LargeVariants(li int, l c33Layout, caps c33Caps) []c33LargeVariant {
+	base := func(store string) c33Case {
+		return c33Case{Layout: l.Name, Segs: c33CloneSegs(l.Segs), Store: store, PollSec: caps.PollSecs[0]}
+	}
+	out := []c33LargeVariant{{base("persistent"), "persistent"}, {base("default"), "default"}}
+	if li%3 == 0 {
+		// a checkpoint that existed before the run, in the middle of the first large segment
+		c := base("persistent")
+		for _, s := range c.Segs {
+			if s.Run > c33LargeMark {
+				pre := s.Base + int64(s.Run/2) - 1
+				c.Pre = &pre
+				c.PrePart = (c33PK{s.Topic, s.Part}).String()
+				break
+			}
+		}
+		if c.Pre != nil {
+			out = append(out, c33LargeVariant{c, "pre"})
+		}
+	}
+	if caps.LFS && li%3 == 1 {
+		c := base("persistent")
+		c.LFSMode, c.LFSConc, c.LFSChecksum = "resolve", 3, true
+		for i := range c.Segs {
+			c.Segs[i].LFSEvery = 7
+		}
+		out = append(out, c33LargeVariant{c, "lfs"})
+	}
+	return out
+}
+
+// c33LargeSchedules: the fault schedules a large layout is run with (besides "no fault").
+func c33LargeSchedules(v c33LargeVariant, thorough bool) [][]c33Fault {
+	sc := func(cy, k int) c33Fault { return c33Fault{Comp: "sink_call", Cycle: cy, Nth: k} }
+	sp := func(cy, k, keep int) c33Fault { return c33Fault{Comp: "sink_partial", Cycle: cy, Nth: k, Keep: keep} }
+	var out [][]c33Fault
+	if v.Kind == "default" {
+		// the modules' own store holds no checkpoint: every cycle rewrites everything
+		out = append(out, []c33Fault{sc(1, 1)}, []c33Fault{sc(2, 1)}, []c33Fault{sp(1, 0, 1000)})
+		if thorough {
+			out = append(out, []c33Fault{sc(1, 0)}, []c33Fault{sc(1, 2)}, []c33Fault{sc(2, 2)}, []c33Fault{sp(1, 1, 1)}, []c33Fault{sp(2, 0, 999)})
+		}
+		return out
+	}
+	calls, cycles, keeps := 5, 1, []int(nil)
+	if thorough {
+		calls, cycles, keeps = 8, 3, []int{1, 500, 999, 1000, 1001, 2000}
+	}
+	if v.Kind != "persistent" && !thorough {
+		calls = 3
+	}
+	for _, f := range c33UniverseX(cycles, calls, keeps) {
+		out = append(out, []c33Fault{f})
+	}
+	if !thorough {
+		for _, f := range []c33Fault{sp(1, 0, 1), sp(1, 0, 1000), sp(1, 1, 1), sp(1, 1, 999), sp(1, 2, 500)} {
+			out = append(out, []c33Fault{f})
+		}
+	}
+	if v.Kind != "persistent" {
+		return out
+	}
+	// pairs: a second failure on the retry in the next cycle, or a failing commit next to the failing write
+	lost := func(seg int) c33Fault { return c33Fault{Comp: "commit_lost", Cycle: 1, Nth: seg} }
+	ackLost := func(seg int) c33Fault { return c33Fault{Comp: "commit_ack_lost", Cycle: 1, Nth: seg} }
+	out = append(out,
+		[]c33Fault{sc(1, 1), sc(2, 0)}, []c33Fault{sc(1, 1), sc(2, 1)}, []c33Fault{sc(1, 2), sc(2, 1)}, []c33Fault{sp(1, 0, 1000), sc(2, 0)},
+		[]c33Fault{sc(1, 1), lost(0)}, []c33Fault{sc(1, 1), ackLost(0)}, []c33Fault{sc(1, 2), lost(0)}, []c33Fault{sp(1, 0, 1000), lost(0)},
+		[]c33Fault{sc(1, 1), lost(1)}, []c33Fault{sc(1, 2), ackLost(1)})
+	if thorough {
+		u := c33UniverseX(2, 3, []int{1000})
+		for i := range u {
+			for j := i + 1; j < len(u); j++ {
+				out = append(out, []c33Fault{u[i], u[j]})
+			}
+		}
+	}
+	return out
+}
+
+var c33SpecialSizes = []int{999, 1000, 1001, 1999, 2000, 2001, 2047, 2048, 2049, 3000, 4095, 4096, 4097, 5000, 500, 512, 1024, 1500, 2500}
+
+// c33RandLarge: PRNG case with 2..4 segments of the leased partition, at least one of them (never
+// only the last) with about 1000 to 5000 records, and 1..4 faults of which at least one is a sink
+// failure addressed by the position of the Write call in polling cycle 1 or 2.
+func c33RandLarge(rng *rand.Rand, caps c33Caps) c33Case {
+	c := c33Case{Layout: "random-large", PollSec: caps.PollSecs[rng.Intn(len(caps.PollSecs))]}
+	n := 2 + rng.Intn(3)
+	big := rng.Intn(n - 1)
+	budget := 6000 // records in the segments other than the guaranteed large one
+	off := []int64{0, 0, 0, 1, 5, 100000}[rng.Intn(6)]
+	for i := 0; i < n; i++ {
+		var k int
+		switch {
+		case i == big:
+			k = c33SpecialSizes[rng.Intn(len(c33SpecialSizes)-5)] // > 900
+			if rng.Intn(3) == 0 {
+				k = 1001 + rng.Intn(4000)
+			}
+		case rng.Intn(3) == 0:
+			k = 1 + rng.Intn(3)
+		case rng.Intn(2) == 0:
+			k = 1 + rng.Intn(5000)
+		default:
+			k = c33SpecialSizes[rng.Intn(len(c33SpecialSizes))]
+		}
+		if i != big {
+			if k > budget {
+				k = 1 + rng.Intn(3)
+			}
+			budget -= k
+		}
+		if i > 0 && rng.Intn(5) == 0 {
+			off += int64(1 + rng.Intn(50)) // compaction / control-batch gap between segments
+		}
+		s := c33Seg{Topic: "orders", Part: 0, Base: off, Run: k}
+		if i == n-1 && rng.Intn(5) == 0 {
+			s.AppearAt = 2 + rng.Intn(2)
+		}
+		c.Segs = append(c.Segs, s)
+		off += int64(k)
+	}
+	switch rng.Intn(8) {
+	case 0:
+		c.Segs = append(c.Segs, c33Seg{Topic: "orders", Part: 1, Recs: c33Range(0, 1+rng.Intn(3))})
+	case 1:
+		c.Segs = append(c.Segs, c33Seg{Topic: "audit", Part: 0, Recs: c33Range(0, 1+rng.Intn(3))})
+	}
+	c33SortSegs(c.Segs)
+	c.Store = "persistent"
+	if rng.Intn(5) == 0 {
+		c.Store = "default"
+	} else if rng.Intn(4) == 0 {
+		first := c.Segs[0]
+		lo, _ := first.firstOff()
+		pre := lo - 1 + int64(rng.Intn(first.size()+1))
+		c.Pre = &pre
+		c.PrePart = (c33PK{first.Topic, first.Part}).String()
+	}
+	if caps.LFS && rng.Intn(3) == 0 {
+		c.LFSMode = []string{"resolve", "resolve", "hybrid", "reference"}[rng.Intn(4)]
+		c.LFSConc = rng.Intn(4)
+		c.LFSChecksum = rng.Intn(2) == 0
+		for i := range c.Segs {
+			if c.Segs[i].Run > 0 && rng.Intn(2) == 0 {
+				c.Segs[i].LFSEvery = []int{2, 5, 17, 100}[rng.Intn(4)]
+			}
+		}
+	}
+	keeps := []int{1, 2, 499, 500, 999, 1000, 1001, 2000, 1 + rng.Intn(5000)}
+	x := c33UniverseX(2, 6, keeps)
+	xa := c33UniverseX(3, 8, keeps)
+	u := c33Universe(c, 3)
+	seen := map[c33Fault]bool{}
+	add := func(f c33Fault) {
+		if !seen[f] {
+			seen[f] = true
+			c.Faults = append(c.Faults, f)
+		}
+	}
+	f0 := x[rng.Intn(len(x))]
+	if rng.Intn(2) == 0 {
+		f0.Comp, f0.Keep = "sink_call", 0
+	}
+	add(f0)
+	for i, nf := 0, rng.Intn(4); i < nf; i++ {
+		switch {
+		case rng.Intn(2) == 0 && len(u) > 0:
+			add(u[rng.Intn(len(u))])
+		case rng.Intn(2) == 0:
+			f := xa[rng.Intn(len(xa))]
+			f.Comp, f.Keep = "sink_call", 0
+			add(f)
+		default:
+			add(xa[rng.Intn(len(xa))])
+		}
+	}
+	sort.Slice(c.Faults, func(i, j int) bool { return c.Faults[i].String() < c.Faults[j].String() })
+	return c
+}
+
 // ---------------------------------------------------------------- main
 
 const c33Rule = "real Processor.Run in a testing/synctest bubble (virtual polling/lease tickers) over in-package fakes; fault schedule = finite list of (cycle, component, n) transient failures of lister, lease claim/renew, checkpoint load/commit (lost, or persisted with the reply lost), decoder, LFS blob fetch and sink. Monitor A (store with a checkpoint = persistent fake honouring the etcd store's contract: -1 when never committed): at every persisted CommitOffset(o) of partition p every record of a listed segment of p with offset <= o (and above a checkpoint that existed before the run) has been written successfully to the sink. Monitor B (both that store and the module's own default store): once N=max(5,segments+2) fault-free polling cycles have passed after the last fired fault / last segment appearance with the lease held throughout, every record of every listed segment of the leased partition, offset 0 included, is in the sink with that record's own unique value. non-trivial = at least one successful sink write and one commit were observed and, if the schedule has faults, at least one fired"
@@ -980,6 +1368,11 @@ func c33Main(t *testing.T, r c33Reporter, caps c33Caps, build c33Build, replay m
 		r.Count("faults_never_reached", int64(len(unfired)))
 		r.Count("lfs_fetches", int64(w.nFetch))
 		r.Count("lease_renewals", int64(w.nRenew))
+		r.Count("sink_writes_partial", int64(w.nSinkPartial))
+		r.Count("sink_failures_on_later_write_of_cycle", int64(w.nSinkLaterFail))
+		r.Count("large_segments_decoded", int64(w.nLargeDecodes))
+		r.Count("large_sink_batches", int64(w.nLargeWrites))
+		r.Count("records_accepted_by_sink", int64(w.nRecsAccepted))
 		r.Count("cases_"+section, 1)
 		r.Count("cases_store_"+c.Store, 1)
 		r.Count(fmt.Sprintf("cases_with_%d_faults_fired", firedN), 1)
@@ -997,7 +1390,11 @@ func c33Main(t *testing.T, r c33Reporter, caps c33Caps, build c33Build, replay m
 			r.Violation("processor_panic:"+caps.Proc, fmt.Sprintf("Processor.Run panicked: %v", w.panicked), map[string]any{"case": c, "events": w.events})
 		}
 		for _, v := range w.viols {
-			r.Violation(v.Class+":"+caps.Proc, v.Summary, map[string]any{"case": c, "case_id": id, "at": v.At, "missing": v.Missing, "events": w.events, "faults_never_reached": unfired})
+			miss := v.Missing
+			if len(miss) > 40 {
+				miss = append(append([]c33Missing(nil), miss[:30]...), miss[len(miss)-10:]...)
+			}
+			r.Violation(v.Class+":"+caps.Proc, v.Summary, map[string]any{"case": c, "case_id": id, "at": v.At, "missing": miss, "missing_total": len(v.Missing), "events": w.events, "faults_never_reached": unfired})
 		}
 		if samples < 3 && nontrivial && (samples == 0 || firedN > 0) {
 			samples++
@@ -1070,6 +1467,42 @@ func c33Main(t *testing.T, r c33Reporter, caps c33Caps, build c33Build, replay m
 	for i := 0; i < n; i++ {
 		runOne(c33RandCase(r.Rand(i), caps, thorough), "rand")
 	}
+	// section 4: the small layouts again, with sink failures addressed by the position of the Write
+	// call within the polling cycle (fails outright, or after the sink accepted the first record)
+	for _, l := range layouts {
+		for _, v := range c33Variants(l, caps) {
+			if v.Full && !thorough {
+				continue
+			}
+			for _, f := range c33UniverseX(cycles1, len(c33LeasedSegs(v.Case)), []int{1}) {
+				c := v.Case
+				c.Faults = []c33Fault{f}
+				runOne(c, "enum1x")
+			}
+		}
+	}
+	// section 5: large segments (1001..5000 records) x several segments per cycle x sink failures on
+	// the k-th Write call of a cycle / after a prefix was accepted, alone and paired with a second
+	// failure on the retry or with a failing commit
+	for li, l := range c33LargeLayouts() {
+		for _, v := range c33LargeVariants(li, l, caps) {
+			runOne(v.Case, "large_nofault")
+			for _, fs := range c33LargeSchedules(v, thorough) {
+				c := v.Case
+				c.Faults = append([]c33Fault(nil), fs...)
+				sort.Slice(c.Faults, func(i, j int) bool { return c.Faults[i].String() < c.Faults[j].String() })
+				runOne(c, "large_enum")
+			}
+		}
+	}
+	// section 6: PRNG cases with large segments
+	nl := r.N(caps.RandLargeQuick, caps.RandLargeThorough)
+	for i := 0; i < nl; i++ {
+		runOne(c33RandLarge(r.Rand(1_000_000+i), caps), "large_rand")
+	}
+	r.Floor("sink_failures_on_later_write_of_cycle", 40)
+	r.Floor("sink_writes_partial", 20)
+	r.Floor("large_segments_decoded", 500)
 	r.Floor("checkpoints_persisted_and_audited", 200)
 	r.Floor("faults_fired", 100)
 	r.Floor("bounded_progress_judged", 200)
